@@ -163,6 +163,39 @@ def run_extra(ctx: Ctx):
                        "the effort credited or the work still open is answered from another task's, slot's or run's value")
 
 
+def _one_candidate_list(sel, v, seen):
+    """v is one of the candidate lists handed in, the empty list, or a list of one member -- never a union of candidates"""
+    if isinstance(v, ast.IfExp):
+        return _one_candidate_list(sel, v.body, seen) and _one_candidate_list(sel, v.orelse, seen)
+    if isinstance(v, ast.List):
+        return len(v.elts) <= 1 and not any(isinstance(e, ast.Starred) for e in v.elts)
+    if isinstance(v, ast.Name):
+        if v.id in seen:
+            return True
+        seen = seen | {v.id}
+        defs = []
+        for n in own_nodes(sel):
+            if isinstance(n, ast.Assign) and any(isinstance(t, ast.Name) and t.id == v.id for t in n.targets):
+                defs.append(n.value)
+            elif isinstance(n, ast.AnnAssign) and isinstance(n.target, ast.Name) and n.target.id == v.id and n.value is not None:
+                defs.append(n.value)
+            elif isinstance(n, (ast.Assign, ast.AugAssign, ast.For, ast.NamedExpr, ast.With, ast.comprehension)):
+                tg = n.targets if isinstance(n, ast.Assign) else ([n.target] if hasattr(n, "target") else [])
+                for t in tg:
+                    if not isinstance(t, ast.Name) and any(isinstance(x, ast.Name) and x.id == v.id and isinstance(x.ctx, ast.Store) for x in ast.walk(t)):
+                        return False
+                if isinstance(n, (ast.AugAssign, ast.For, ast.NamedExpr)) and isinstance(n.target, ast.Name) and n.target.id == v.id:
+                    return False
+        grown = any(isinstance(n, ast.Call) and isinstance(n.func, ast.Attribute) and isinstance(n.func.value, ast.Name) and n.func.value.id == v.id
+                    and n.func.attr in ("append", "extend", "insert", "__iadd__") for n in own_nodes(sel))
+        if grown:
+            return False
+        if v.id in sel.params:
+            return all(_one_candidate_list(sel, d, seen) for d in defs)
+        return bool(defs) and all(_one_candidate_list(sel, d, seen) for d in defs)
+    return False
+
+
 def run(ctx: Ctx):
     repo = ctx.repo
     brs = repo.func("TaskScenario.bookResources")
@@ -197,7 +230,7 @@ def run(ctx: Ctx):
                        key=key_of("R03.2", fn, node.ast))
     for r in returns(sel):
         v = r.value
-        ok = (isinstance(v, ast.Name) and v.id in sel.params) or (isinstance(v, ast.List) and not v.elts)
+        ok = _one_candidate_list(sel, v, set())
         ctx.ob("R03.2", f"{sel.qual}: return {norm(v)}", (sel, r), ok,
                "returns exactly one of the candidate lists" if ok else "selection returns something other than one candidate list",
                key=key_of("R03.2", sel, r))
